@@ -286,7 +286,7 @@ def _coeff_model():
     return m
 
 
-def _save_link_case(cls, user, internal):
+def _save_link_case(cls, user, internal, isolated=False):
     def build(cx):
         l = cx.name("l")
         q = cx.real("flow")
@@ -309,7 +309,7 @@ def _save_link_case(cls, user, internal):
                              _pump_curve_name="c", _curve_reg={"c": curve})
         sn = mk_node(cx, Junction, cx.name("s"), _head=cx.real("hs"))
         en = mk_node(cx, Junction, cx.name("e"), _head=cx.real("he"))
-        link = mk_link(cx, cls, l, sn, en, _user_status=user, _internal_status=internal, _flow=q, _setting=setting, **extra)
+        link = mk_link(cx, cls, l, sn, en, _user_status=user, _internal_status=internal, _flow=q, _setting=setting, _is_isolated=isolated, **extra)
         wn = WN2(generic_node=lambda nm: sn if str(nm) == str(cx.field(sn, "_name")) else en)
         wn.declare_link(l, link)
         nl, ll, nres, lres = _res_maps(cx)
@@ -336,12 +336,14 @@ def _save_link_case(cls, user, internal):
                 posts.append(("valve_setting_entry_is_setting", _one(ll["setting"].of(l), cx.t(setting), cx)))
             return posts
         cx.ensure(post)
-    return Case("link:%s,user=%s,internal=%s" % (cls.__name__, user.name, internal.name), build, crosscheck=False, replay="model")
+    return Case("link:%s,user=%s,internal=%s%s" % (cls.__name__, user.name, internal.name, ",in_an_isolated_part" if isolated else ""), build, crosscheck=False, replay="model")
 
 
 _save_cases = ([_save_node_case(Junction, iso) for iso in (False, True)] + [_save_node_case(Junction, False, "PDD")] + [_save_node_case(Tank, False), _save_node_case(Reservoir, False)] +
                [_save_link_case(c, u, i) for c in (Pipe, HeadPump, PowerPump, PRValve)
-                for (u, i) in ((LinkStatus.Open, LinkStatus.Active), (LinkStatus.Closed, LinkStatus.Active), (LinkStatus.Open, LinkStatus.Closed))])
+                for (u, i) in ((LinkStatus.Open, LinkStatus.Active), (LinkStatus.Closed, LinkStatus.Active), (LinkStatus.Open, LinkStatus.Closed))] +
+               # a link in a part cut off from every source keeps the status it has (isolation is not a status)
+               [_save_link_case(c, LinkStatus.Open, LinkStatus.Active, True) for c in (Pipe, HeadPump, PowerPump, PRValve)])
 
 CONTRACTS = [
     Contract(_q, P + ["C08", "C05", "C06", "C02", "C07", "C16"], _store_cases, models=amlmodel.build_models, sum_specs=_store_sum_specs,
